@@ -111,4 +111,20 @@ theorem ok_MultiTrajResult_add : safeExcept [] ir_MultiTrajResult_add = true := 
 def ir__TrajectorySum_merge : Stmt := (.seq (.choice .skip .skip) (.seq (.choice .skip .skip) (.seq (.fresh 5) (.seq (.choice (.seq (.choice (.seq (.loop (.havoc 6)) (.mutate 5)) .skip) (.seq (.choice (.mutate 5) .skip) (.seq (.loop (.havoc 7)) (.seq (.mutate 5) (.seq (.loop (.havoc 7)) (.mutate 5)))))) .skip) (.seq (.choice (.seq (.loop (.seq (.havoc 6) (.havoc 8))) (.mutate 5)) (.mutate 5)) (.seq (.choice (.mutate 5) (.mutate 5)) (.seq (.loop (.seq (.havoc 7) (.havoc 9))) (.seq (.mutate 5) (.seq (.loop (.seq (.havoc 7) (.havoc 9))) (.mutate 5))))))))))
 theorem ok__TrajectorySum_merge : safeExcept [4, 5, 6, 7, 8, 9] ir__TrajectorySum_merge = true := by decide
 
+/-- `qutip/solver/solver_base.py` solver_deprecation (29 statements, 5 variables) -/
+def ir_solver_deprecation : Stmt := (.seq (.choice (.fresh 1) (.fresh 1)) (.seq (.choice (.seq (.mutate 0) (.mutate 1)) .skip) (.seq (.choice (.mutate 0) .skip) (.seq (.choice (.mutate 0) .skip) (.seq (.choice (.mutate 0) .skip) (.seq (.choice (.mutate 0) .skip) (.seq (.choice (.mutate 0) .skip) (.seq (.choice (.mutate 0) .skip) (.seq (.choice (.seq (.mutate 0) (.mutate 1)) .skip) (.seq (.choice (.seq (.mutate 0) (.mutate 1)) .skip) (.seq (.choice (.seq (.mutate 0) (.mutate 1)) .skip) (.seq (.choice .skip .skip) (.choice .skip .skip)))))))))))))
+theorem ok_solver_deprecation : safeExcept [0, 3, 4] ir_solver_deprecation = true := by decide
+
+/-- `qutip/solver/parallel.py` get_map (4 statements, 5 variables) -/
+def ir_get_map : Stmt := (.seq (.havoc 2) (.choice (.fresh 4) (.fresh 4)))
+theorem ok_get_map : safeExcept [1, 2, 3, 4] ir_get_map = true := by decide
+
+/-- `qutip/core/environment.py` ExponentialBosonicEnvironment_init (20 statements, 14 variables) -/
+def ir_ExponentialBosonicEnvironment_init : Stmt := (.seq (.fresh 0) (.seq (.havoc 9) (.seq (.choice .skip .skip) (.seq (.loop (.havoc 10)) (.seq (.choice .skip .skip) (.seq (.fresh 5) (.seq (.choice (.seq (.loop (.seq (.havoc 11) (.havoc 12))) (.seq (.mutate 5) (.seq (.loop (.seq (.havoc 11) (.havoc 12))) (.mutate 5)))) .skip) (.seq (.choice (.havoc 5) .skip) (.seq (.alias 13 5) (.mutate 0))))))))))
+theorem ok_ExponentialBosonicEnvironment_init : safeExcept [9, 10, 11, 12, 13] ir_ExponentialBosonicEnvironment_init = true := by decide
+
+/-- `qutip/core/environment.py` ExponentialFermionicEnvironment_init (17 statements, 14 variables) -/
+def ir_ExponentialFermionicEnvironment_init : Stmt := (.seq (.fresh 0) (.seq (.havoc 9) (.seq (.choice .skip .skip) (.seq (.loop (.havoc 10)) (.seq (.choice .skip .skip) (.seq (.fresh 11) (.seq (.mutate 0) (.choice (.seq (.loop (.seq (.havoc 12) (.havoc 13))) (.seq (.mutate 11) (.seq (.loop (.seq (.havoc 12) (.havoc 13))) (.mutate 11)))) .skip))))))))
+theorem ok_ExponentialFermionicEnvironment_init : safeExcept [9, 10, 11, 12, 13] ir_ExponentialFermionicEnvironment_init = true := by decide
+
 end Qv.Gen.AliasIR
